@@ -45,10 +45,11 @@ FORMS = ["y", "np.log(trials)", "s", "sp", "c", "o", "s[a]", "s['b']", "sp['two 
 
 
 def PROOFS():
-    from ..contracts import transforms_c, variable_c  # noqa: F401
+    from ..contracts import transforms_c, variable_c, terms_c  # noqa: F401
     T = "formulae.transforms."
     return [("vf.contracts.transforms_c", [T + "Proportion.__init__", T + "Proportion.eval"]),
-            ("vf.contracts.variable_c", ["formulae.terms.variable.Variable.eval_categoric"])]
+            ("vf.contracts.variable_c", ["formulae.terms.variable.Variable.eval_categoric"]),
+            ("vf.contracts.terms_c", ["formulae.terms.terms.Response.__init__"])]
 
 
 def run(report, findings):
